@@ -8,6 +8,7 @@ mod driver;
 mod gen;
 mod model;
 mod printer;
+mod replay;
 mod run;
 mod workloads;
 
@@ -117,6 +118,12 @@ fn main() {
             let stats = trace_stats(&lines);
             std::fs::write(format!("{out}.stats.json"), serde_json::to_string(&stats).unwrap()).expect("write stats");
             eprintln!("tracegen: prop={prop} seed={seed} runs={runs} lines={}", lines.len());
+        }
+        "replay" => {
+            let seed: u64 = get("seed", "1").parse().expect("seed");
+            let summary = replay::replay_file(&get("in", "/dev/stdin"), seed);
+            std::fs::write(get("out", "/dev/stdout"), serde_json::to_string(&summary).unwrap()).expect("write summary");
+            eprintln!("replay: behaviours={} mismatches={}", summary["behaviours"], summary["mismatches"].as_array().map(|a| a.len()).unwrap_or(0));
         }
         _ => {
             eprintln!("unknown command {cmd:?}");
